@@ -17,6 +17,8 @@ func verifSpawn() uint64 { return 0 }
 
 func verifStart(tok uint64) {}
 
+func verifDrop(tok uint64) {}
+
 func verifEnd() {}
 
 func verifActive() bool { return false }
